@@ -102,6 +102,8 @@ func transport.UnregisterDialer(scheme) ()
 func transport.RegisterDialer(scheme, dialer) ()
   props C19
   ensures registered: haskey(dialers.m, scheme)
+  # a dialer that supports contexts is registered as it is, any other one behind the adapter
+  call transport.RegisterContextDialer requires the-dialer-or-its-adapter: same($0, scheme) && (ok ==> same($1, dialer)) && (!ok ==> typeis($1, "noCtxDialer"))
 
 func transport.DialURL(url) (conn, err)
   props C19
